@@ -233,11 +233,31 @@ fn c11_value_order_replay() {
             if c != b.cmp(a).reverse() {
                 fails.push(format!("cmp({}, {}) = {:?} but cmp the other way round = {:?}", a, b, c, b.cmp(a)));
             }
+            // the comparison operators go through partial_cmp: it is the total order, never None
+            if a.partial_cmp(b) != Some(c) {
+                fails.push(format!("partial_cmp({} : {}, {} : {}) = {:?} but cmp = {:?}", a, a.ty(), b, b.ty(), a.partial_cmp(b), c));
+            }
+            if (a < b) != (c == Ordering::Less) || (a > b) != (c == Ordering::Greater) || (a <= b) != (c != Ordering::Greater) || (a >= b) != (c != Ordering::Less) {
+                fails.push(format!("the operators < > <= >= on {} : {} and {} : {} disagree with cmp = {:?}", a, a.ty(), b, b.ty(), c));
+            }
             if same && hash_of(a) != hash_of(b) {
                 fails.push(format!("{} and {} are the same element but hash differently", a, b));
             }
             if fails.len() >= 8 {
                 break 'outer;
+            }
+        }
+    }
+    // words take their comparison traits from the value they wrap
+    let words: Vec<(crate::Word, &Value)> = vals.iter().filter_map(|v| v.to_word().map(|w| (w, v))).collect();
+    'wouter: for (wa, a) in &words {
+        for (wb, b) in &words {
+            if (wa == wb) != (a == b) || wa.cmp(wb) != a.cmp(b) || wa.partial_cmp(wb) != Some(a.cmp(b)) {
+                fails.push(format!("words of {} : {} and {} : {}: == {}, cmp {:?}, partial_cmp {:?}; values: == {}, cmp {:?}",
+                    a, a.ty(), b, b.ty(), wa == wb, wa.cmp(wb), wa.partial_cmp(wb), a == b, a.cmp(b)));
+            }
+            if fails.len() >= 8 {
+                break 'wouter;
             }
         }
     }
